@@ -55,6 +55,10 @@ type mspec struct {
 	kind   string // "" | multi
 	xs     string // data centre id per migrating caller, '+' separated: "2+2", "2+3", "2+2+2"
 	normal int    // 1: one more caller, answered normally by the old data centre between the errors
+	// procs > 0: the scenario's process runs with GOMAXPROCS=procs.  On one processor a goroutine started with `go`
+	// first runs when its parent blocks or is pre-empted: what depends on WHEN a fresh goroutine runs (a loop variable
+	// captured by `go func`, a wake-up racing with a registration) is decided the same way on every run
+	procs int
 }
 
 func (s mspec) String() string {
@@ -62,10 +66,14 @@ func (s mspec) String() string {
 	if sc == "" {
 		sc = "free"
 	}
-	if s.kind == "multi" {
-		return fmt.Sprintf("kind=multi,xs=%s,normal=%d,seq=%s,sched=%s", s.xs, s.normal, s.seq, sc)
+	pr := ""
+	if s.procs > 0 {
+		pr = fmt.Sprintf(",procs=%d", s.procs)
 	}
-	return fmt.Sprintf("setup=%s,code=%d,text=%s,seq=%s,inflight=%d,b=%s,sched=%s", s.setup, s.code, vc.HexS(s.text), s.seq, s.inflight, s.answerB, sc)
+	if s.kind == "multi" {
+		return fmt.Sprintf("kind=multi,xs=%s,normal=%d,seq=%s,sched=%s", s.xs, s.normal, s.seq, sc) + pr
+	}
+	return fmt.Sprintf("setup=%s,code=%d,text=%s,seq=%s,inflight=%d,b=%s,sched=%s", s.setup, s.code, vc.HexS(s.text), s.seq, s.inflight, s.answerB, sc) + pr
 }
 
 func parseSpec(x string) mspec {
@@ -94,6 +102,8 @@ func parseSpec(x string) mspec {
 			s.xs = v
 		case "normal":
 			s.normal, _ = strconv.Atoi(v)
+		case "procs":
+			s.procs, _ = strconv.Atoi(v)
 		}
 	}
 	return s
@@ -165,6 +175,12 @@ func migrateScenarios(thorough bool) []mspec {
 	multi("2+3", 0, "even", "serial", 1)
 	multi("2+3", 1, "even", "free", freeReps)
 	multi("2+3+2", 1, "even", "free", 1)
+	// the same on ONE processor, with two and three other calls in flight
+	for _, n := range []int{2, 3} {
+		l = append(l, mspec{setup: "direct", code: 303, text: "PHONE_MIGRATE_2", seq: "even", inflight: n, answerB: "obj", sched: "free", procs: 1})
+	}
+	l = append(l, mspec{kind: "multi", xs: "2+2", normal: 1, seq: "even", sched: "free", procs: 1})
+	l = append(l, mspec{kind: "multi", xs: "2+3+2", normal: 1, seq: "even", sched: "free", procs: 1})
 	if thorough {
 		for _, xs := range []string{"2+2", "2+12", "2+2+2", "2+3", "3+2", "2+3+2", "3+3+2"} {
 			for _, sc := range []string{"serial", "serialans", "overlap"} {
@@ -270,6 +286,11 @@ func runChild(sub, id, spec string) []string {
 	}
 	defer os.RemoveAll(base)
 	cmd.Env = append(os.Environ(), "VERIF_E2E_SCRATCH="+base)
+	if sub == "migrate" {
+		if sp := parseSpec(spec); sp.procs > 0 {
+			cmd.Env = append(cmd.Env, fmt.Sprintf("GOMAXPROCS=%d", sp.procs))
+		}
+	}
 	done := make(chan error, 1)
 	if err := cmd.Start(); err != nil {
 		die("cannot start child: %v", err)
